@@ -14,15 +14,22 @@ import (
 // C12 - same command, same input, same bytes - on every run and every I/O path.
 
 type C12Case struct {
-	Argv     []string `json:"argv"`
-	Input    string   `json:"input"`
-	HasInput bool     `json:"has_input"` // the command reads FILE / stdin
-	Repeats  int      `json:"repeats"`
-	Race     bool     `json:"race,omitempty"`
+	Argv     []string          `json:"argv"`
+	Input    string            `json:"input"`
+	HasInput bool              `json:"has_input"` // the command reads FILE / stdin
+	Repeats  int               `json:"repeats"`
+	Race     bool              `json:"race,omitempty"`
+	Files    map[string]string `json:"files,omitempty"` // user dictionaries referenced from argv as @name
 }
 
 func (c C12Case) run(extraArgs []string, mode string, env []string) Result {
 	r := Run{Argv: append(append([]string{}, c.Argv...), extraArgs...), Env: env}
+	if len(c.Files) > 0 {
+		r.Files = map[string]string{}
+		for k, v := range c.Files {
+			r.Files[k] = v
+		}
+	}
 	switch mode {
 	case "stdin":
 		r.Stdin = c.Input
@@ -30,7 +37,10 @@ func (c C12Case) run(extraArgs []string, mode string, env []string) Result {
 		r.Stdin = c.Input
 		r.Argv = append(r.Argv, "-")
 	case "file":
-		r.Files = map[string]string{"input.txt": c.Input}
+		if r.Files == nil {
+			r.Files = map[string]string{}
+		}
+		r.Files["input.txt"] = c.Input
 		r.Argv = append(r.Argv, "@input.txt")
 	}
 	return r.Exec()
@@ -99,7 +109,7 @@ func checkC12(c C12Case) *Violation {
 		}
 	}
 	// 4. -o FILE holds exactly the stdout bytes; stdout stays empty
-	o := Run{Argv: append(append([]string{}, c.Argv...), "-o", "@out.bin"), Stdin: c.Input, OutArg: "out.bin"}.Exec()
+	o := Run{Argv: append(append([]string{}, c.Argv...), "-o", "@out.bin"), Stdin: c.Input, OutArg: "out.bin", Files: c.Files}.Exec()
 	if (o.Exit == 0) != (ref.Exit == 0) {
 		return vio("output-path", "%s: with -o the command exits %d, without %d%s", what, o.Exit, ref.Exit, ctx)
 	}
@@ -132,7 +142,8 @@ func init() { reg("c12", checkC12) }
 // genC12 draws a command with an input it accepts (mostly) or refuses (sometimes).
 func genC12(t *rapid.T) C12Case {
 	kind := rapid.SampledFrom([]string{"text-parse", "text-conv-degree", "text-conv-syllable", "write", "write-event", "write-parse", "write-conv",
-		"info-attr-list", "info-attr-describe", "info-chord-list", "info-chord-describe", "info-key-list", "info-key-describe", "info-key-conv", "gen-attr"}).Draw(t, "command")
+		"info-attr-list", "info-attr-describe", "info-chord-list", "info-chord-describe", "info-key-list", "info-key-describe", "info-key-conv", "gen-attr",
+		"dict-write-event", "dict-write", "dict-chord-describe", "dict-chord-list", "dict-attr-list"}).Draw(t, "command")
 	key := rapid.SampledFrom(theory.ListedKeys).Draw(t, "key")
 	broken := coin(t, "invalid-input", 15)
 	var c C12Case
@@ -201,6 +212,58 @@ func genC12(t *rapid.T) C12Case {
 		c = C12Case{Argv: []string{"info", "key", "conv", "--key", key, "-c", rapid.StringMatching(`[prds]{1,8}`).Draw(t, "chain")}}
 	case "gen-attr":
 		c = C12Case{Argv: []string{"gen", "attr", "-d", fmt.Sprint(rapid.IntRange(0, 40).Draw(t, "d"))}}
+	case "dict-write-event", "dict-write", "dict-chord-describe", "dict-chord-list", "dict-attr-list":
+		// user dictionaries, including definitions that collide with each other or with built-ins:
+		// whatever crd decides about a collision, it must decide it the same way on every run
+		d, usable := genDict(t)
+		var extra []UChord
+		var extraAttrs []UAttr
+		n := rapid.IntRange(1, 4).Draw(t, "ncollide")
+		for i := 0; i < n; i++ {
+			disp := rapid.SampledFrom(theory.Displays[1:]).Draw(t, "collide-display")
+			switch rapid.SampledFrom([]string{"new-name-builtin-display", "same-name-twice", "attr-twice", "new-name-user-display"}).Draw(t, "collision") {
+			case "new-name-builtin-display":
+				extra = append(extra, UChord{Name: fmt.Sprintf("Collide%d", i), Display: disp, Attrs: []string{"Perfect1", "Perfect4", "Minor7"}})
+				usable = append(usable, disp)
+			case "same-name-twice":
+				extra = append(extra, UChord{Name: "Twice", Display: fmt.Sprintf("tw%d", i), Attrs: []string{"Perfect1", "Major2"}}, UChord{Name: "Twice", Display: fmt.Sprintf("tw%dx", i), Attrs: []string{"Perfect1", "Minor6"}})
+				usable = append(usable, "Twice", fmt.Sprintf("tw%d", i))
+			case "attr-twice":
+				extraAttrs = append(extraAttrs, UAttr{Name: "DupAttr", IV: IV{2, int(theory.Major)}}, UAttr{Name: "DupAttr", IV: IV{6, int(theory.Minor)}})
+				extra = append(extra, UChord{Name: fmt.Sprintf("UsesDup%d", i), Display: fmt.Sprintf("ud%d", i), Attrs: []string{"Perfect1", "DupAttr"}})
+				usable = append(usable, fmt.Sprintf("ud%d", i))
+			case "new-name-user-display":
+				if len(d.ChordFiles) > 0 && len(d.ChordFiles[0]) > 0 {
+					ud := d.ChordFiles[0][0].Display
+					extra = append(extra, UChord{Name: fmt.Sprintf("Shadow%d", i), Display: ud, Attrs: []string{"Perfect1", "Augmented4"}})
+				}
+			}
+		}
+		if extraAttrs != nil {
+			d.AttrFiles = append(d.AttrFiles, extraAttrs)
+		}
+		if extra != nil {
+			d.ChordFiles = append(d.ChordFiles, extra)
+		}
+		files, args := d.filesAndArgs()
+		use := rapid.SampledFrom(usable).Draw(t, "use")
+		switch kind {
+		case "dict-write-event":
+			c = C12Case{Argv: append([]string{"write", "event"}, args...), Input: oneChordDoc(use), HasInput: true}
+		case "dict-write":
+			c = C12Case{Argv: append([]string{"write"}, args...), Input: oneChordDoc(use), HasInput: true}
+		case "dict-chord-describe":
+			tgt := "C" + use
+			if use != "" && needsUnderscore(use) {
+				tgt = "C_" + use
+			}
+			c = C12Case{Argv: append([]string{"info", "chord", "describe", "-t", tgt}, args...)}
+		case "dict-chord-list":
+			c = C12Case{Argv: append([]string{"info", "chord", "list"}, args...)}
+		case "dict-attr-list":
+			c = C12Case{Argv: append([]string{"info", "attr", "list"}, args...)}
+		}
+		c.Files = files
 	}
 	return c
 }
